@@ -50,8 +50,58 @@ fn order_programs() -> Vec<(String, String)> {
     v
 }
 
+/// Module programs: the order of a namespace object's members and of the host-visible export
+/// list must not depend on where strings happen to live in memory.
+fn module_programs() -> Vec<(String, String)> {
+    let names = ["zeta", "alpha", "mid", "Beta", "gamma", "omega", "delta", "kappa", "Lambda", "eta", "theta", "iota", "nu", "xi", "pi", "rho"];
+    let lib: String = names
+        .iter()
+        .enumerate()
+        .map(|(i, n)| match i % 4 {
+            0 => format!("export const {} = {};\n", n, i),
+            1 => format!("export function {}() {{ return {}; }}\n", n, i),
+            2 => format!("export let {} = '{}';\n", n, i),
+            _ => format!("export class {} {{ static v = {}; }}\n", n, i),
+        })
+        .collect();
+    let walk = "var ks = Object.keys(ns); var fi = []; for (var k in ns) { fi.push(k); } var en = Object.entries(ns).map(function(e){ return e[0]; });";
+    let mk = |id: &str, main: &str, mods: Vec<(&str, String)>| {
+        let m: serde_json::Map<String, Value> = mods.into_iter().map(|(k, v)| (k.to_string(), Value::String(v))).collect();
+        (format!("module.{}", id), format!("//!modules {}\n{}", json!({"main": "/app/main.ts", "mods": m}), main))
+    };
+    let mut v = Vec::new();
+    v.push(mk("namespace-keys", &format!("import * as ns from './lib.ts';\n{}\nexport const keys = ks.join();\n[ks.join(), fi.join(), en.join(), JSON.stringify(Object.keys({{...ns}}))].join('|')", walk), vec![("/app/lib.ts", lib.clone())]));
+    v.push(mk(
+        "export-star",
+        &format!("import * as ns from './barrel.ts';\n{}\n[ks.join(), fi.join(), en.join()].join('|')", walk),
+        vec![("/app/lib.ts", lib.clone()), ("/app/barrel.ts", "export * from './lib.ts';\nexport const own1 = 1;\nexport const Own2 = 2;\nexport * as nested from './lib.ts';\n".to_string())],
+    ));
+    v.push(mk(
+        "own-exports",
+        &format!("{}export default 7;\nexport {{ zeta as renamedZ, alpha as A }};\n'done'", lib),
+        vec![],
+    ));
+    v.push(mk(
+        "two-libraries",
+        &format!("import * as ns from './lib.ts';\nimport * as other from './other.ts';\n{}\nexport const a = ks.join();\nexport const b = Object.keys(other).join();\n[ks.join(), Object.keys(other).join(), fi.join()].join('|')", walk),
+        vec![("/app/lib.ts", lib.clone()), ("/app/other.ts", "export const q1 = 1, Z9 = 2, m5 = 3;\nexport function aa() {}\nexport default class Dflt {}\nexport { q1 as first };\n".to_string())],
+    ));
+    v.push(mk(
+        "re-export-renamed",
+        &format!("import * as ns from './facade.ts';\n{}\n[ks.join(), fi.join()].join('|')", walk),
+        vec![("/app/lib.ts", lib.clone()), ("/app/facade.ts", "export { zeta as z, alpha, mid as M, Beta as beta2, omega } from './lib.ts';\nexport { default as libDefault } from './dflt.ts';\n".to_string()), ("/app/dflt.ts", "export default 5;\nexport const side = 1;\n".to_string())],
+    ));
+    v.push(mk(
+        "namespace-through-function",
+        "import * as ns from './lib.ts';\nfunction names(o){ var r = []; for (var k in o) { r.push(k + ':' + typeof o[k]); } return r.join(); }\nnames(ns)",
+        vec![("/app/lib.ts", lib.clone())],
+    ));
+    v
+}
+
 fn programs(ctx: &Ctx) -> Vec<(String, String)> {
     let mut v = order_programs();
+    v.extend(module_programs());
     for it in c01::stmt_items().into_iter().step_by(2) {
         let src = c01::batch_program(std::slice::from_ref(&it));
         v.push((it.id, src));
